@@ -702,7 +702,8 @@ def p_mp_createClass(p):
                                     obj.qualifiers['embeddedinstance']
                             except KeyError:
                                 continue
-                            if embedded_inst.value is None:
+                            if not isinstance(embedded_inst.value, str):
+                                # None, or a qualifier declared differently
                                 continue
                             if embedded_inst.value not in dep_classnames and \
                                     embedded_inst.value.lower() != ccname:
@@ -2613,7 +2614,7 @@ class MOFWBEMConnection(BaseRepositoryConnection):
                 if 'EmbeddedInstance' in obj.qualifiers:
                     eiqualifier = obj.qualifiers['EmbeddedInstance']
                     # The DMTF spec allows the value to be None
-                    if eiqualifier.value is None:
+                    if not isinstance(eiqualifier.value, str):
                         continue
                     try:
                         self.GetClass(eiqualifier.value, namespace=ns,
